@@ -94,6 +94,7 @@ Descriptors(s) ==
     LET lens == {s.old_len, s.new_len}
         D(kind, j, len) == [run |-> s.run, k |-> s.k, f |-> s.f, kind |-> kind, j |-> j, len |-> len]
     IN  (IF s.intact THEN { D("intact", 0, s.new_len) } ELSE {})
+        \cup (IF s.resume THEN { D("resume", 0, s.new_len) } ELSE {})   \* continuation of a sync image
         \cup (IF s.has_new /\ s.trunc
               THEN { D("truncate", n, n) : n \in TruncPoints(s.new_len, s.bounds, s.dense) } ELSE {})
         \cup (IF s.has_new /\ s.inplace /\ s.nch >= 1
@@ -153,6 +154,33 @@ Reopen(outcome, content, extent) ==
     /\ ReopenOK(outcome, content, extent)
     /\ img' = NoImg
     /\ UNCHANGED sp
+
+(* resume{k, open, mode, ...}: REOPEN IS AN ACTION OF THE HISTORY, not only a final       *)
+(* observation.  The undamaged image of sync point k is opened in one of the open modes /   *)
+(* configurations the type offers, used further (appends: push / put / write), closed and   *)
+(* opened again:                                                                            *)
+(*   - the open must succeed and present exactly the synced content (len / stats / ids are  *)
+(*     part of the content); a create-new mode over the existing file presents the content  *)
+(*     of a new, empty structure (sp[1], the state right after creation);                   *)
+(*   - what was stored before keeps its bytes (old1 = old0); the appended records get ids   *)
+(*     that are new and pairwise different; len grows by exactly the number appended;       *)
+(*   - a read-only mode appends nothing;                                                    *)
+(*   - the second close + reopen presents exactly what the live object held (again = live). *)
+CreateModes == {"create"}
+SeqRange(q) == { q[i] : i \in 1..Len(q) }
+ResumeOK(e) ==
+    /\ img = NoImg
+    /\ e.k \in 1..Len(sp) /\ sp[e.k].sync /\ sp[e.k].valid
+    /\ e.open = "ok"
+    /\ e.c0 = sp[IF e.mode \in CreateModes THEN 1 ELSE e.k].c
+    /\ e.old1 = e.old0
+    /\ e.len1 = e.len0 + e.added
+    /\ (~e.writable) => e.added = 0
+    /\ e.has_ids => /\ Len(e.new_ids) = e.added
+                    /\ Cardinality(SeqRange(e.new_ids)) = Len(e.new_ids)
+                    /\ SeqRange(e.new_ids) \cap SeqRange(e.ids0) = {}
+    /\ e.again_open = "ok" /\ e.again = e.live
+Resume(e) == ResumeOK(e) /\ UNCHANGED <<sp, img>>
 
 (* raw transports (io::mmap readers: a byte stream without header): the reader    *)
 (* must present exactly the bytes of the image - nothing beyond the end of the    *)
